@@ -434,13 +434,13 @@ fn exec_plan(t: &[&str]) -> String {
 }
 
 fn exec_info(t: &[&str]) -> String {
-    let mut counts: BTreeMap<BlobId, u8> = BTreeMap::new();
+    let mut counts: BTreeMap<(BlobType, BlobId), u8> = BTreeMap::new();
     let mut keys = vec![];
     for x in split_list(t[0], ',') {
         let Some((k, n)) = x.split_once('=') else { return "bad-op".into() };
         let (Some((tree, id)), Ok(n)) = (parse_key(k), n.parse::<u8>()) else { return "bad-op".into() };
         keys.push((tree, id));
-        _ = counts.insert(BlobId::from(abs_id(K_BLOB, id)), n);
+        _ = counts.insert((if tree { BlobType::Tree } else { BlobType::Data }, BlobId::from(abs_id(K_BLOB, id))), n);
     }
     let Some(packs) = split_list(t[1], '+').into_iter().map(parse_pack).collect::<Option<Vec<_>>>() else { return "bad-op".into() };
     let mut outs = vec![];
@@ -453,7 +453,7 @@ fn exec_info(t: &[&str]) -> String {
     let after: Vec<String> = keys
         .iter()
         .filter(|k| seen.insert(**k))
-        .map(|(tree, id)| format!("{}={}", key_str(*tree, *id), counts.get(&BlobId::from(abs_id(K_BLOB, *id))).copied().unwrap_or(0)))
+        .map(|(tree, id)| format!("{}={}", key_str(*tree, *id), counts.get(&(if *tree { BlobType::Tree } else { BlobType::Data }, BlobId::from(abs_id(K_BLOB, *id)))).copied().unwrap_or(0)))
         .collect();
     format!("ok {} C={}", join(&outs, ","), join(&after, ","))
 }
